@@ -80,6 +80,7 @@ def run(ctx, repo):
     ctx.rule('R6', 'ordering constants: track < hurdles < jumps < throws < relays < other; FIELD_SORT_ORDER lists '
                    'HJ PV LJ TJ SP DT HT JT in that order; text key = one digit + zero-padded >=5 digits; sorter keys only')
     ctx.rule('R7', 'relay distance = int(number of legs) * leg distance')
+    ctx.rule('R8', 'the distance component of a sort key is computed from text that still carries the unit letter (K / M) the pattern admits')
     n_sinks = 0
 
     # ---- E4 on the consumers -------------------------------------------------------------
@@ -188,6 +189,57 @@ def check_sort_key_shape(ctx, P, utils, fn, consts):
         if pat in ('PAT_TRACK', 'PAT_HURDLES', 'PAT_RELAYS') and isinstance(second, ast.Constant):
             ctx.finding('R6', '%s::discipline_sort_key::%s order component' % (UTILS, pat), UTILS, r.lineno,
                         'the %s arm orders by a constant instead of the distance' % pat)
+    # R8: where the arm's pattern admits a distance written with a unit (digit followed by K, k or M - the letters with a multiplier; a lower-case m is metres: 4x1.5K), the order component must be
+    # computed from text that still carries the unit: the groups (or the whole code) that the component reads, closed over the arm's
+    # local definitions, must be able to hold a digit followed by the unit letter
+    has_unit = P.dfa_of_pattern(r'[\s\S]*[0-9][KkM][\s\S]*')
+    param = fn.args.args[0].arg
+    for pat, r, st in arms:
+        if pat not in ('PAT_TRACK', 'PAT_HURDLES', 'PAT_RELAYS') or not isinstance(r.value, ast.Tuple) or len(r.value.elts) != 3:
+            continue
+        whole = P.dfa(pat)
+        unit_words = rx.inter(whole, has_unit)
+        wit = P.wit(unit_words)
+        if wit is None:
+            continue
+        # definitions of local names inside the arm
+        defs = {}
+        for n in ast.walk(st):
+            if isinstance(n, ast.Assign) and len(n.targets) == 1 and isinstance(n.targets[0], ast.Name):
+                defs.setdefault(n.targets[0].id, []).append(n.value)
+        seen, work, exprs = set(), [r.value.elts[1]], []
+        while work:
+            e = work.pop()
+            exprs.append(e)
+            for x in ast.walk(e):
+                if isinstance(x, ast.Name) and x.id in defs and x.id not in seen:
+                    seen.add(x.id)
+                    work += defs[x.id]
+        carries = False
+        read = []
+        for e in exprs:
+            for x in ast.walk(e):
+                if isinstance(x, ast.Name) and x.id == param:
+                    carries = True
+                    read.append(param)
+                if isinstance(x, ast.Call) and call_name(x) == 'group' and isinstance(x.func, ast.Attribute):
+                    gid = x.args[0].value if x.args and isinstance(x.args[0], ast.Constant) else 0
+                    read.append('group(%r)' % gid)
+                    if gid == 0:
+                        carries = True
+                        continue
+                    if isinstance(gid, str):
+                        gid = P.group_index(pat, gid)
+                    g = find_group(list(P.need(pat)), gid)
+                    if g is not None and not P.is_empty(rx.inter(P.exact(g), has_unit)):
+                        carries = True
+        if carries:
+            ctx.ok('R8', '%s arm: the order component reads %s, which can carry the unit of %r' % (pat, sorted(set(read)), wit))
+        else:
+            ctx.finding('R8', '%s::discipline_sort_key::%s distance drops the unit' % (UTILS, pat), UTILS, r.lineno,
+                        'the %s arm computes its order component from %s, which cannot hold the unit letter of a distance such as %r: the '
+                        'kilometre / mile multiplier is lost, so %r sorts as if the figure were metres' % (
+                            pat, sorted(set(read)) or 'no part of the code', wit, wit), wit)
     missing = [p for p in ORDER_SPEC if p not in cats]
     if missing:
         raise AnalysisError('discipline_sort_key: no dispatch arm found for %s' % missing)
